@@ -394,6 +394,9 @@ def run(ctx):
     ctx.rule('C06.STATEALIAS', lambda: _c04.rule_statealias(ctx, 'C06'), 2)
     ctx.rule('C06.FSMETA', lambda: _c04.rule_file_offsets(ctx, 'C06'), 5)
     ctx.rule('C06.STATEMOVE', lambda: _c04.rule_state_moves_with_commit(ctx, 'C06'), 2)
+    # a flush job whose batch is discarded (the shielded job fails, the process is stopped) must still hold what it had
+    ctx.rule('C06.UNFLUSHEDKEPT', lambda: _c04.rule_unflushed_kept(ctx, 'C06'), 1)
+    ctx.rule('C06.HEIGHTCACHE', lambda: rule_height_cache(ctx), 2)
     # each backup job leaves the durable state consistent at one height: the history truncation belongs to
     # the same job as the UTXO commit (a stop between jobs is a legal cancellation instant)
     from ..effects import InlineGraph
@@ -460,6 +463,30 @@ def rule_cancel_propagates(ctx):
     ctx.ok('C06.CANCELPROP', f'{root.unit.relpath} :: processing task :: {len(clo)} functions scanned',
            'no coroutine below the processing task swallows CancelledError')
     return n + len(clo)
+
+
+def rule_height_cache(ctx, rule='C06.HEIGHTCACHE'):
+    """The shutdown flush logs progress from Daemon.cached_height() (it must not ask the daemon: C06.FLUSHOFFLINE).  The
+    cache is therefore written by exactly two places: the constructor and height(), which stores a reply.  Anything else
+    that resets it (to None on a fail-over, say) makes the arithmetic of the final flush raise and the finished blocks are
+    never written."""
+    n = 0
+    writers = []
+    for f in ctx.repo.funcs.values():
+        if f.cls != 'Daemon':
+            continue
+        for s_ in f.own_nodes():
+            tg = s_.targets if isinstance(s_, ast.Assign) else ([s_.target] if isinstance(s_, (ast.AugAssign, ast.AnnAssign)) else [])
+            for t in tg:
+                if isinstance(t, ast.Attribute) and ctx.res.canon(t, f) == 'self._height':
+                    writers.append((f, s_))
+    for f, s_ in writers:
+        n += 1
+        ctx.check(f.name in ('__init__', 'height'), rule, ctx.key(f, s_, 'writer of the cached height'),
+                  'the cached daemon height is written by the constructor and by height() only',
+                  f'{f.qual} resets the cached daemon height (`{norm(s_)}`): cached_height() is read, without asking the daemon, by the '
+                  'flush that runs on shutdown', loc=ctx.loc(f, s_))
+    return n
 
 
 def rule_flush_offline(ctx):
